@@ -4,7 +4,7 @@
 #   variant: hooks (default) | asan | tsan
 set -e
 V=${1:-hooks}
-ROOT=/verif
+ROOT=$(cd "$(dirname "$0")/.." && pwd)
 REPO=${VERIF_REPO:-/repo}
 BR=$ROOT/.build; [ -n "$VERIF_SCRATCH" ] && BR=$VERIF_SCRATCH/build
 B=$BR/$V
